@@ -46,16 +46,57 @@ def spkg(spec):
     return fpkg(spec, "svc")
 
 
+def io_role(spec):
+    """role of the file that declares `ThingRequest` and the plain method's response (the service's own file unless the
+    layout keeps the request/response messages in another package; that file is imported by the service's file)"""
+    return spec.get("io_role", "svc")
+
+
+def io_first(spec):
+    """full name of the plain (non-LRO) response message"""
+    role = io_role(spec)
+    return f"{fpkg(spec, role)}.{spec['files'][role]['msgs'][0]}"
+
+
+def request_type(spec):
+    return f"{fpkg(spec, io_role(spec))}.ThingRequest"
+
+
 def fpath(spec, role):
     return f"{fpkg(spec, role).replace('.', '/')}/{spec['files'][role]['stem']}.proto"
 
 
 # ------------------------------------------------------------------ generator (the property's quantifier)
 
+# layouts and their share of the generated APIs (per cent).  `flat`: one package.  `subpkg`: the service's file in `<pkg>.sub`,
+# same-named messages in the ancestor / a sibling / a deeper package.  The last three put services and their request /
+# response messages in DIFFERENT packages of the API (DESIGN §7.8, sub-package layouts):
+#   sub-all      every service in ONE sub-package, the API package holds only messages (half of them: the sub-package's files
+#                declare no message at all; sometimes two services in two files of the sub-package)
+#   root+sub     one service in the API package and one in a sub-package (either of them is `Library`)
+#   msgs-in-sub  the service in the API package, its request / response / LRO messages in a sub-package
+LAYOUTS = [("flat", 40), ("subpkg", 20), ("sub-all", 14), ("root+sub", 13), ("msgs-in-sub", 13)]
+SUB_NAMES = ["sub", "keepers", "admin", "sub", "sub.deeper"]
+
+
+def pick_layout(r):
+    x = r.randint(1, sum(w for _, w in LAYOUTS))
+    for name, w in LAYOUTS:
+        x -= w
+        if x <= 0:
+            return name
+    return LAYOUTS[0][0]
+
+
 def gen_spec(r: apigen.Rng, idx: int, nlro=None, layout=None):
     if layout is None:
-        layout = "subpkg" if r.maybe(0.3) else "flat"
-    spec = gen_spec_subpkg(r, idx, nlro) if layout == "subpkg" else gen_spec_flat(r, idx, nlro)
+        layout = pick_layout(r)
+    if layout == "subpkg":
+        spec = gen_spec_subpkg(r, idx, nlro)
+    elif layout == "flat":
+        spec = gen_spec_flat(r, idx, nlro)
+    else:
+        spec = gen_spec_split(r, idx, nlro, layout)
     spec["sharing"] = share_types(r, [m for m in spec["methods"] if m["kind"] == "lro"])
     if layout == "flat":
         lros = [m for m in spec["methods"] if m["kind"] == "lro"]
@@ -93,7 +134,7 @@ def gen_second_service(r, spec):
     """service `Archive` in the un-imported file: 0..2 LRO methods (names relative to ITS file's package) and a raw one"""
     pkg = fpkg(spec, "unimp")
     own = spec["files"]["unimp"]["msgs"]
-    other = spec["files"]["svc"]["msgs"]
+    other = spec["files"]["svc"]["msgs"] or own
 
     def ref2():
         k = r.pick(["own-rel", "own-abs", "other-rel", "other-abs", "empty", "nested"])
@@ -102,9 +143,11 @@ def gen_second_service(r, spec):
         if k == "nested":
             full = f"{pkg}.Box.Lid"
             return {"case": "svc2-abs-nested", "text": full, "target": full}
-        n = r.pick(own if k.startswith("own") else other)
-        full = f"{(pkg if k.startswith('own') else spkg(spec))}.{n}"
-        return {"case": "svc2-" + k, "text": n if k.endswith("rel") else full, "target": full}
+        mine2 = k.startswith("own") or not spec["files"]["svc"]["msgs"]
+        n = r.pick(own if mine2 else other)
+        full = f"{(pkg if mine2 else spkg(spec))}.{n}"
+        rel = k.endswith("rel") and (mine2 or spkg(spec) == pkg)      # a relative name denotes a message of ITS method's package
+        return {"case": "svc2-" + k, "text": n if rel else full, "target": full}
     ms = [{"name": f"{r.pick(['Archive', 'Restore', 'Purge'])}{k}", "kind": "lro", "response": ref2(), "metadata": ref2()}
           for k in range(r.pick([0, 1, 2, 2]))]
     share_types(r, ms)
@@ -195,6 +238,88 @@ def gen_spec_subpkg(r: apigen.Rng, idx: int, nlro=None):
     return {"pkg": pkg, "layout": "subpkg", "files": files, "svc_deps": svc_deps, "order": order, "methods": methods, "service_yaml": None}
 
 
+def gen_spec_split(r: apigen.Rng, idx: int, nlro, layout):
+    """services and their messages in DIFFERENT packages of one API (`sub-all`, `root+sub`, `msgs-in-sub`, see LAYOUTS).
+    Relative operation_info names denote messages of the METHOD's package (any file of it), fully-qualified names the
+    package they spell; the same short names exist in the other package (shadowing)."""
+    pkg = r.pick(PKGS)
+    sub = f"{pkg}.{r.pick(SUB_NAMES)}"
+    two = False
+    if layout == "sub-all":
+        two = r.maybe(0.4)                     # a second service, in another file of the SAME sub-package
+        pk = {"svc": sub, "imp": pkg, "unimp": sub if two else pkg}
+        bare = r.maybe(0.5)                    # the service's file declares no message: every message lives in the API package
+    elif layout == "root+sub":
+        two = True
+        lib_in_sub = r.maybe(0.5)
+        pk = {"svc": sub if lib_in_sub else pkg, "unimp": pkg if lib_in_sub else sub, "imp": r.pick([pkg, sub])}
+        if r.maybe(0.2):                       # sibling sub-packages: the API package itself declares nothing
+            pk = {"svc": sub, "imp": sub, "unimp": f"{pkg}.other"}
+        bare = pk["imp"] != pk["unimp"] and r.maybe(0.25)
+    else:                                       # msgs-in-sub
+        two = r.maybe(0.3)
+        pk = {"svc": pkg, "imp": sub, "unimp": r.pick([sub, pkg, sub])}
+        bare = r.maybe(0.5)
+    names = list(MSG_POOL)
+    r.shuffle(names)
+    used = collections.defaultdict(set)        # package -> short names taken
+    files = {}
+    for role in ROLES:
+        k = 0 if (role == "svc" and bare) else r.randint(1, 2) + (role != "unimp")
+        msgs = [names.pop() for _ in range(k)]
+        # shadowing: a short name that another PACKAGE of the API also declares
+        foreign = sorted({n for p, ns in used.items() if p != pk[role] for n in ns} - used[pk[role]])
+        if msgs and foreign and r.maybe(0.6):
+            msgs[-1] = r.pick(foreign)
+        used[pk[role]].update(msgs)
+        files[role] = {"stem": r.pick({"svc": SVC_STEMS, "imp": IMP_STEMS, "unimp": UNIMP_STEMS}[role]), "pkg": pk[role], "msgs": msgs,
+                       "nested": {"svc": [] if bare else [["Outer", "Inner"]], "imp": [["Pack", "Item"]], "unimp": [["Box", "Lid"]]}[role]}
+    if pk["imp"] != pk["svc"] and r.maybe(0.25):    # `<pkg>/lib.proto` and `<pkg>/sub/lib.proto`: two type modules of one name
+        files["imp"]["stem"] = files["svc"]["stem"]
+    if files["imp"]["stem"] == files["unimp"]["stem"] and pk["imp"] == pk["unimp"]:
+        files["unimp"]["stem"] += "_more"
+    io = "imp" if (bare or layout == "msgs-in-sub" or r.maybe(0.3)) else "svc"
+    svc_deps = [f for f in sorted(set(WKT.values())) if r.maybe(0.5)]
+    mpkg = pk["svc"]
+    tops = [(role, n) for role in ROLES for n in files[role]["msgs"]]
+
+    def ref():
+        kind = r.pick(["rel"] * 4 + ["abs"] * 5 + ["nested", "empty", "dep"])
+        rels = [(role, n) for role, n in tops if pk[role] == mpkg]
+        if kind == "rel" and not rels:
+            kind = "abs"
+        if kind == "rel":
+            role, n = r.pick(rels)
+            shadowed = any(n in ns for p, ns in used.items() if p != mpkg)
+            return {"case": f"rel-{role}-split" + ("-shadowed" if shadowed else ""), "text": n, "target": f"{mpkg}.{n}"}
+        if kind == "abs":
+            role, n = r.pick(tops)
+            full = f"{pk[role]}.{n}"
+            return {"case": f"abs-{role}-" + ("method-pkg" if pk[role] == mpkg else ("subpkg" if pk[role] == sub else "api-pkg")), "text": full, "target": full}
+        if kind == "nested":
+            role = r.pick([x for x in ROLES if files[x]["nested"]])
+            full = f"{pk[role]}." + ".".join(files[role]["nested"][0])
+            return {"case": f"abs-nested-{role}-" + ("method-pkg" if pk[role] == mpkg else "other-pkg"), "text": full, "target": full}
+        full = "google.protobuf.Empty" if kind == "empty" else r.pick([k for k in WKT if k != "google.protobuf.Empty"])
+        return {"case": f"{kind}-{'imported' if WKT[full] in svc_deps else 'unimported'}", "text": full, "target": full}
+
+    methods = []
+    for k in range(nlro if nlro is not None else r.randint(3, 5)):
+        methods.append({"name": f"{r.pick(['Start', 'Import', 'Export', 'Run', 'Feed'])}{r.pick(['Job', 'Index', 'Animal'])}{k}",
+                        "kind": "lro", "response": ref(), "metadata": ref()})
+    methods.append({"name": "StartRaw", "kind": "raw"})
+    methods.append({"name": "GetThing", "kind": "plain"})
+    if r.maybe(0.4):
+        methods.append({"name": "DropThing", "kind": "void"})
+    r.shuffle(methods)
+    order = ["imp", "svc"]
+    order.insert(r.randint(0, 2), "unimp")
+    spec = {"pkg": pkg, "layout": layout, "files": files, "io_role": io, "svc_deps": svc_deps, "order": order, "methods": methods, "service_yaml": None}
+    if two:
+        spec["svc2"] = gen_second_service(r, spec)
+    return spec
+
+
 def gen_spec_flat(r: apigen.Rng, idx: int, nlro=None):
     """one API: a service file, a file it imports, a file NOBODY imports (all three generated, same
     package), LRO methods whose response/metadata names are relative | fully-qualified and point to
@@ -262,8 +387,8 @@ def build_files(spec):
             i = o.nested(inner); i.field("name"); i.field("n", "int32")
         out[role] = f
     f = out["svc"]
-    rq = f.msg("ThingRequest"); rq.field("name")
-    first = f"{pkg}.{spec['files']['svc']['msgs'][0]}"
+    rq = out[io_role(spec)].msg("ThingRequest"); rq.field("name")
+    first = io_first(spec)
     svc = f.service("Library")
     for m in spec["methods"]:
         http = ("post", "/v1/{name=*}:" + m["name"][0].lower() + m["name"][1:])
@@ -525,9 +650,9 @@ def t2_direct(ctx, r, spec, api, svc, mfiles, svc_idx):
     sels = gen_selectors(r, spec, ctx.n(24, 60))
     cases, ops = [], []
     for a, b in zip(sels[::2], sels[1::2]):
-        out = r.pick([OP_OUT] * 8 + ["." + spkg(spec) + ".ThingRequest", OP, ".x" + OP, OP_OUT + "s", OP_OUT + ".Inner", ".x" + OP_OUT])
+        out = r.pick([OP_OUT] * 8 + ["." + request_type(spec), OP, ".x" + OP, OP_OUT + "s", OP_OUT + ".Inner", ".x" + OP_OUT])
         annotated = r.maybe(0.9)
-        mp = descriptor_pb2.MethodDescriptorProto(name="Probe", input_type="." + spkg(spec) + ".ThingRequest", output_type=out)
+        mp = descriptor_pb2.MethodDescriptorProto(name="Probe", input_type="." + request_type(spec), output_type=out)
         if annotated:
             oi = mp.options.Extensions[operations_pb2.operation_info]
             oi.response_type, oi.metadata_type = a, b
@@ -737,12 +862,6 @@ def _run_spec(ctx, r, spec, label, files, req, transports):
     t2_direct(ctx, r, spec, api, svc, mfiles, svc_idx)
     svc2 = t2_services(ctx, spec, api, svc, sv_res, mfiles, svc_idx)
     t2_alias(ctx, r, spec, api, svc)
-    if any(fpkg(spec, role).endswith(".deeper") for role in ROLES):
-        # two-level sub-packages: the emitted tree lacks `<sub>/deeper/types` on the unchanged generator (API.subpackages,
-        # DESIGN §9-F7; a C01/C11 matter) — the library cannot be imported, so only generation + T2 are run for this layout
-        ctx.assume("T3 is not run for APIs with a two-level sub-package (`<pkg>.sub.deeper`): the emitted package does not import (DESIGN §9-F7, outside C08); generation outcome and T2 are still compared")
-        ctx.count("t3_skipped", "two-level-sub-package")
-        return
     # ---- T3
     root = genrun.materialise(res)
     try:
@@ -759,7 +878,7 @@ def _run_spec(ctx, r, spec, label, files, req, transports):
             elif m["kind"] == "raw":
                 plans.append((m, wm, [{"done": r.maybe(), "meta": None, "out": None}], f"shelves/s1/operations/raw{next(ids)}"))
         reqd = {"name": "x"}
-        rq_b64 = codec.encode_b64(f"{spkg(spec)}.ThingRequest", reqd)
+        rq_b64 = codec.encode_b64(request_type(spec), reqd)
         sessions = []
         for tr in transports:
             calls = []
@@ -912,13 +1031,18 @@ def check_programs(ctx, spec, codec, svc, sv_res, mfiles, svc_idx, progs, outs, 
                 ctx.fail("rest-operations-client", f"{label}: REST operations client could not be built: {str(out)[-400:]}", payload)
                 continue
             names = [n for n, _ in rest_polls]
-            mo = ask(ctx, [{"op": "c08.ops_table", "rules": yaml_rules(spec), "prefix": a.client_package_version, "names": names}])[0]
+            # the model derives the path prefix from the package of the file that DECLARES the service, taken from the INPUT
+            decl_pkg = spkg(spec) if label == "Library" else fpkg(spec, "unimp")
+            mo = ask(ctx, [{"op": "c08.ops_table", "rules": yaml_rules(spec), "package": decl_pkg, "names": names}])[0]
+            ctx.count("rest_path_prefix", ("api-version" if decl_pkg == spec["pkg"] else "sub-package") + ":" + str(mo.get("prefix")))
+            if mo.get("prefix") != a.client_package_version:
+                ctx.disagree("T2:c08.client_package_version", f"{label} declared in {decl_pkg}: model {mo.get('prefix')!r} vs impl {a.client_package_version!r}", payload)
             impl = [[k, [[row.get("method"), row.get("uri"), row.get("body")] for row in v]] for k, v in out["table"].items()]
             ctx.count("rest_ops_table_rows", sum(len(v) for _, v in impl))
             if mo.get("table") != impl:
                 ctx.disagree("T3:c08.rest-ops-table", f"model {mo.get('table')} vs impl {impl}", payload)
-            if out.get("path_prefix") != a.client_package_version or not out.get("same_client_twice"):
-                ctx.disagree("T3:c08.rest-ops-table", f"path_prefix {out.get('path_prefix')} (version {a.client_package_version}), cached={out.get('same_client_twice')}", payload)
+            if out.get("path_prefix") != mo.get("prefix") or not out.get("same_client_twice"):
+                ctx.disagree("T3:c08.rest-ops-table", f"path_prefix {out.get('path_prefix')} (model {mo.get('prefix')}, service declared in {decl_pkg}), cached={out.get('same_client_twice')}", payload)
             for (opname, gets), mp in zip(rest_polls, mo.get("paths", [])):
                 for g in gets:
                     ctx.traces += 1
@@ -1196,9 +1320,10 @@ def run_excluded(ctx, r):
     ctx.assume("every response/metadata type named by operation_info exists in the request's file set (otherwise the generator raises KeyError, not the advertised TypeError)")
     ctx.assume("fully-qualified names are written without a leading dot, as in operations.proto's own example `google.protobuf.Struct` (`.pkg.Msg` raises KeyError)")
     ctx.assume("a name is either a single identifier relative to the method's package or fully qualified; a partially-qualified name such as `v1.Book` is taken as absolute and raises KeyError")
-    ctx.assume("REST: the URL prefix of the default GetOperation binding is `service.client_package_version` = the LAST package segment (`/sub/<name>` for a "
-               "service in a sub-package `<pkg>.sub`); the statement does not fix the URL, so only the operation name inside the polled URL is demanded and the "
-               "prefix is compared with the model, which takes it from the same attribute")
+    ctx.assume("REST: the URL prefix of the default GetOperation binding is `service.client_package_version` = the LAST segment of the package of the file "
+               "that declares the service (`/sub/<name>` for a service in a sub-package `<pkg>.sub`, not `/v1/<name>`); the statement does not fix the URL, so only "
+               "the operation name inside the polled URL is demanded by the oracle; the prefix is compared with the model, which computes it from the declaring "
+               "file's package as given in the INPUT (theorem default_poll_url_of_declaring_package)")
     ctx.assume("polling (sleep schedule, deadline, retry of GetOperation) is api-core's; the model is 'the first done operation decides' and time is trapped in T3")
     for label, text in (("unknown", "Nope"), ("unknown-abs", f"{pkg}.Nope"), ("leading-dot", f".{pkg}.Book"), ("partial", "v1.Book"),
                         ("other-package-relative", "Duration"), ("whitespace-name", " "), ("trailing-space", "Book "), ("leading-space", " Book")):
@@ -1229,9 +1354,13 @@ def run_payload(ctx, r, payload, label):
 def run(ctx):
     ctx.rule = ("APIs of three generated files (service file, a file it imports, a file nobody imports; random request order) x LRO methods whose "
                 "response/metadata names are relative|fully-qualified x same-file|imported|un-imported|nested|Empty|other dependency type "
-                "(imported by the service's file or not); 30% of the APIs put the service's file in a SUB-PACKAGE `<pkg>.sub` while files of the ancestor package "
-                "`<pkg>` and of `<pkg>.other` | `<pkg>.sub.deeper` define messages with the same short names (relative names must denote the method's "
-                "package; T3 skipped for two-level sub-packages); LRO methods share response/metadata types in every combination (same response, same metadata, "
+                "(imported by the service's file or not); 60% of the APIs have proto SUB-PACKAGES: 20% put the service's file in `<pkg>.sub` while files of the "
+                "ancestor package `<pkg>` and of `<pkg>.other` | `<pkg>.sub.deeper` define messages with the same short names (relative names must denote the method's "
+                "package); 14% `sub-all` = every service in ONE sub-package (`sub`|`keepers`|`admin`|`sub.deeper`), the API package holds only messages (half: the "
+                "service's file declares no message, request and responses live in the API package; 40%: two services in two files of the sub-package); 13% `root+sub` = "
+                "one service in the API package and one in a sub-package (either is the fully exercised one; 20%: sibling sub-packages, nothing in the API package); 13% "
+                "`msgs-in-sub` = the service in the API package, its request / plain response / LRO messages in a sub-package; shadowed short names across the packages, "
+                "same file stem in two packages; all of them on gRPC, asyncio gRPC and REST with the same histories, programs and service configs; LRO methods share response/metadata types in every combination (same response, same metadata, "
                 "both, crossed, one's response = another's metadata, chains); rpcs named Operation/OperationAsync and files operation(_async).proto (module alias); "
                 "a second service in the un-imported file (0..2 LROs, sometimes none: no operations client); service-config http rules for Operations "
                 "(additional bindings, duplicate selectors, suffixes, other services' rules, mixin) x histories (RPC reply, not-done^k, done(response|error|neither), extra replies) x "
@@ -1279,10 +1408,15 @@ CLAIM = dict(
           "future sends nothing; the REST operations client's http table and poll URL (service-config rule over the default). Tie: T2 real Address.resolve, _maybe_get_lro, Method.lro, "
           "_client_output vs the model; T3 generation outcome and the emitted sync gRPC, asyncio gRPC and REST clients against loopback servers "
           "with scripted GetOperation histories and with programs over the future object (libhost_c08) vs the model; Address.module_alias, Service.has_lro, "
-          "the REST operations http table vs the model; model-independent oracle on result/metadata types and contents, poll counts and targets."),
+          "the REST operations http table vs the model; Service.client_package_version (default REST poll prefix) vs the model's clientPackageVersion of the "
+          "DECLARING file's package taken from the input; model-independent oracle on result/metadata types and contents, poll counts and targets. "
+          "Sub-package layouts (services and their messages in different packages of the API) are 60% of the generated APIs and three corpus cases."),
     technique="Lean 4 theorems (iff-characterisation of _maybe_get_lro, import invariance, induction over polling histories) + differential T2/T3 on three transports",
     design="7.8",
     note=("Polling is api-core's and is modelled as 'first done operation decides' (sleeps trapped in T3). The same-channel claim is structural in the model; "
           "in T3 it is observed as GetOperation reaching the one loopback server through a stub created on the instrumented channel. Known finding: a relative "
-          "name of a nested message (`Outer.Inner`) raises KeyError. Hypotheses: named types exist; no leading dot; no partially-qualified names."),
+          "name of a nested message (`Outer.Inner`) raises KeyError. Hypotheses: named types exist; no leading dot; no partially-qualified names. "
+          "Every package the model uses is the package of the file that declares the service (theorems lro_relative_in_subpackage, "
+          "default_poll_url_of_declaring_package): without a GetOperation rule the REST client of a service in `<pkg>.keepers` polls `/keepers/…` — "
+          "outside the statement, which does not fix the URL."),
 )
